@@ -10,5 +10,5 @@ if [ -n "$RUN_TESTS" ]; then ( cd "$scratch/repo" && PYTHONPATH="$scratch/repo" 
 mkdir -p "$scratch/out"
 rc=0
 for c in "$@"; do
-  VERIF_REPO_ROOT="$scratch/repo" VERIF_OUT="$scratch/out" /verif/check "$c" --tier "$tier" 2>&1 | grep -E "VIOLATION|signature=|KNOWN|HARNESS|tier=" | head -${SHOW:-8}
+  VERIF_REPO_ROOT="$scratch/repo" VERIF_OUT="$scratch/out" /verif/check "$c" --tier "$tier" 2>&1 | grep -v "^KNOWN-FINDING" | grep -E "^VIOLATION|^  signature=|HARNESS|tier=" | head -${SHOW:-8}
 done
